@@ -170,6 +170,7 @@ func parsePacketAdaptationField(i *astikit.BytesIterator) (a *PacketAdaptationFi
 
 	// Length
 	a.Length = int(b)
+	a.IsOneByteStuffing = a.Length == 0
 
 	afStartOffset := i.Offset()
 
@@ -323,6 +324,22 @@ func parsePCR(i *astikit.BytesIterator) (cr *ClockReference, err error) {
 }
 
 func writePacket(w *astikit.BitsWriter, p *Packet, targetPacketSize int) (written int, retErr error) {
+	// Make sure everything fits before writing anything
+	size := 1 + mpegTsPacketHeaderSize
+	if p.Header.HasAdaptationField {
+		size++ // adaptation field length
+		if !p.AdaptationField.IsOneByteStuffing {
+			size += calcPacketAdaptationFieldSize(p.AdaptationField)
+		}
+	}
+	if targetPacketSize-size < len(p.Payload) {
+		return 0, fmt.Errorf(
+			"writePacket: can't write %d bytes of payload: only %d is available",
+			len(p.Payload),
+			targetPacketSize-size,
+		)
+	}
+
 	if retErr = w.Write(uint8(syncByte)); retErr != nil {
 		return
 	}
@@ -393,23 +410,30 @@ func writePCR(w *astikit.BitsWriter, cr *ClockReference) (int, error) {
 }
 
 func calcPacketAdaptationFieldLength(af *PacketAdaptationField) (length uint8) {
-	length++
+	return uint8(calcPacketAdaptationFieldSize(af))
+}
+
+// calcPacketAdaptationFieldSize returns the number of bytes following the adaptation field length
+func calcPacketAdaptationFieldSize(af *PacketAdaptationField) (size int) {
+	size++
 	if af.HasPCR {
-		length += pcrBytesSize
+		size += pcrBytesSize
 	}
 	if af.HasOPCR {
-		length += pcrBytesSize
+		size += pcrBytesSize
 	}
 	if af.HasSplicingCountdown {
-		length++
+		size++
 	}
 	if af.HasTransportPrivateData {
-		length += 1 + uint8(len(af.TransportPrivateData))
+		size += 1 + len(af.TransportPrivateData)
 	}
 	if af.HasAdaptationExtensionField {
-		length += 1 + calcPacketAdaptationFieldExtensionLength(af.AdaptationExtensionField)
+		size += 1 + int(calcPacketAdaptationFieldExtensionLength(af.AdaptationExtensionField))
 	}
-	length += uint8(af.StuffingLength)
+	if af.StuffingLength > 0 {
+		size += af.StuffingLength
+	}
 	return
 }
 
